@@ -236,9 +236,9 @@ mtext('C09',
 
 from .rules import lexical  # noqa: E402
 
-reg(Prop('C01', 'other', [lexical.rule_lex_card, lexical.rule_scale_contexts, lexical.rule_split_closure, lexical.rule_zero_arm, lexical.rule_guard_atoms],
+reg(Prop('C01', 'other', [lexical.rule_lex_card, lexical.rule_scale_contexts, lexical.rule_compose_contexts, lexical.rule_split_closure, lexical.rule_zero_arm, lexical.rule_guard_atoms],
          "Decides the lexical mechanism of the cardinal round-trip: A1 — every core cardinal form of the frozen reference lexicon (7 languages, ~330 forms incl. plural/inflected scale words, regional tens, national variants) selects, through partial evaluation of the language's lemmatizer source, an arm of the word table whose placing leaves are exactly the instruction its class prescribes for its value (put of its digits; de/nl tens put_digit_at(d,1); lexical hundreds put d00; hundred/thousand/million/milliard shift 2/3/6/9; it mille put 1000; fr vigesimal triples with the 60/80/4 predecessor tests), and apply(word) evaluated on an abstract fresh builder returns Ok with that one instruction; A3 — splitter patterns and arm keys agree (every pattern has an arm, every compounding word is a pattern, patterns non-empty and distinct) and every piece of every generated compound spelling (de/it/nl, n <= 999 quick, <= 9999 thorough) selects an arm; A6 zero arms; A7 scale-word guards (3,5)/(6,8) and the unit/tens separation guards. Does NOT decide that the composition of correct instructions yields decimal(n) for every n < 10^12 and context, nor 'never split in two': that depends on run-time buffer contents."))
-reg(Prop('C04', 'other', [lexical.rule_lex_ord, lexical.rule_split_closure, builder.rule_frozen_first, lexical.rule_sep_mark],
+reg(Prop('C04', 'other', [lexical.rule_lex_ord, lexical.rule_group_ordinal, lexical.rule_split_closure, builder.rule_frozen_first, lexical.rule_sep_mark],
          "Decides the lexical mechanism of the ordinal round-trip: A2 — every core ordinal form and inflection of the reference lexicon (~750 forms) selects an arm whose placing leaves equal those of the cardinal of its rank; apply(form) evaluated on an abstract fresh builder (es 'segundo' after an ordinal) returns Ok, sets marker = Ordinal(<expected marker for that inflection>) — which evaluates the source of get_morph_marker and of the postlude on the form — and freezes the builder where the language does so; A3 closure for compound stems; B4 a frozen builder refuses every further word; A5 format_and_value renders digits followed by the marker. Does NOT decide the composition for every rank up to 10^6 (same reason as C01)."))
 reg(Prop('C05', 'other', [lexical.rule_dec_table, lexical.rule_sep_mark, scanner.rule_decimal_entry, scanner.rule_reset_must, builder.rule_field_coverage],
          "Decides: A4 (en/de decimal tables map each digit word to push(b\"d\"), zero synonyms share an arm, default NaN; fr/es/pt/it/nl apply_decimal forwards to apply verbatim), A5 (is_decimal_sep evaluates to true exactly on the separator word; the text template is {int}<mark>{dec} with mark '.' for English and ',' otherwise, filled with int.to_string(), dec.to_string() in that order; the value is the parse of {int}.{dec} of the same strings), B7-DECIMAL-ENTRY (decimal mode entered only for a rejected word, not already decimal, non-empty non-ordinal integer part, separator word; returns Incomplete — a separator with no number before it stays a word), B7-RESET-MUST (decimal formatter iff is_dec && !dec_part.is_empty(), otherwise the integer: nothing usable after the separator falls back to the integer; parser reset on every path), B6. Does NOT decide that arbitrary integer x fraction shapes round-trip (the fractional grammar of five languages goes through apply, i.e. C01's composition)."))
